@@ -39,6 +39,8 @@ impl Uci {
 
     fn uci_loop(&mut self, input: &mut impl BufRead) {
         loop {
+            #[cfg(rce_verif)]
+            crate::rce_verif::point("uci.wait_input");
             let mut line = String::new();
             input.read_line(&mut line).unwrap();
             let trimmed = line.trim();
@@ -143,6 +145,8 @@ impl Uci {
         self.join_handle = Some(thread::spawn(move || {
             search.search(&SimpleEvaluator, max_depth);
         }));
+        #[cfg(rce_verif)]
+        crate::rce_verif::point("uci.go_spawned");
     }
 
     fn setoption(&self, name: &String, value: Option<&String>) -> Result<(), String> {
@@ -151,6 +155,21 @@ impl Uci {
         self.log(format!("{value:?}"));
         Err("Setting options is not implemented yet".to_string())
     }
+}
+
+/// Verification entry point: runs the real command loop over an in-memory script and
+/// returns the session position afterwards. The script should end with `quit`.
+#[cfg(rce_verif)]
+pub fn rce_verif_run_script(script: &str) -> Board {
+    let mut uci = Uci::new();
+    uci.uci_loop(&mut script.as_bytes());
+    uci.board
+}
+
+/// Verification entry point: the real command parser, result Debug-printed.
+#[cfg(rce_verif)]
+pub fn rce_verif_parse(fields: &[&str]) -> Result<String, String> {
+    UCICommand::new(fields).map(|c| format!("{c:?}"))
 }
 
 ////////////////////////////////////////////////////////////////////////////////
